@@ -11,6 +11,7 @@
   `cfgOfSource`, i.e. about the tree as it is now.
 -/
 import Nervus.Proofs.CrashMain
+import Nervus.Proofs.CrashIndex
 namespace Nervus.Props.C02
 open Nervus Nervus.Crash
 
@@ -172,6 +173,26 @@ theorem crash_prefix_cfg (cfg : Cfg) (hcfg : CfgOK cfg) (rounds : List Round) (h
   crash_recover (cfg := cfg) hcfg.1 hcfg.2.2.1 hcfg.2.1 hcfg.2.2.2.2 rounds [] ({} : FS) []
     (Or.inr ⟨rfl, nascent_empty⟩) (by simp [allNodes]) (histOK_of_fresh hcfg.2.2.2.1 rounds _ _ hok hc)
 
+/-- **C02 (commits that set indexed properties; everything except lookups through the index)**:
+    `WriteTxn::commit` writes the index leaf and the index catalog page in place BEFORE CommitTx
+    (`Model/IndexSteps`: `commitIxSteps`).  A history that ends with a death at ANY step `n` of
+    such a commit, in any crash mode and with any selection `c.keepIx` of the unsynced index
+    entries, leaves files (without the index) that are those of the same history with a plain
+    commit: the next open succeeds and nodes, edges and properties are those of an admissible
+    list.  What `lookup_index` returns is NOT covered — see `counterexample_index_before_commit`. -/
+theorem crash_prefix_indexed (rounds : List Round) (ops : List HOp) (tx : Tx) (ixs ixd : List (Nat × Nat)) (n : Nat) (c : ICrash)
+    (hok : ∀ n', FreshHist [] (rounds ++ [⟨ops, .inCommit tx n', c.mode⟩]))
+    (hc : ∀ n', CondHist cfgOfSource (created cfgOfSource) (rounds ++ [⟨ops, .inCommit tx n', c.mode⟩])) :
+    ∃ T m fs', Spec.Admissible [] (rounds.map Round.obs ++ [⟨commitsOf ops, some tx⟩]) T ∧
+      recover cfgOfSource
+        (indexedDeath cfgOfSource (afterRounds cfgOfSource (created cfgOfSource) rounds) ixd ops tx ixs n c).fs = .ok (m, fs') ∧
+      Spec.Content.same (content m fs'.pv) (Spec.run T) := by
+  obtain ⟨n', hn'⟩ := indexedDeath_fs cfgOfSource (afterRounds cfgOfSource (created cfgOfSource) rounds) ixd ops tx ixs n c
+  obtain ⟨T, m, fs', hadm, hrec, hsame⟩ := crash_prefix _ (hok n') (hc n')
+  rw [afterRounds_snoc, ← hn'] at hrec
+  rw [List.map_append] at hadm
+  exact ⟨T, m, fs', hadm, hrec, hsame⟩
+
 /-- **C02 (creation, every step)**: `open` on a nascent database — never created, or cut short at
     any step of an earlier creation — succeeds; after EVERY prefix of its I/O steps, in EVERY crash
     mode, the page file is nascent again and the log is empty; the handle it returns satisfies the
@@ -259,6 +280,22 @@ theorem counterexample_live_tree :
     (match recover cfgOfSource (afterRounds cfgOfSource (created cfgOfSource) live_tree_rounds) with
       | .ok (m, fs) => some ((content m fs.pv).props.contains 10000)
       | .error _ => none) = some false := by decide
+
+/-- current tree, known finding C02-index-before-commit (`Model/IndexSteps`: node 1 {k:1} is
+    committed and indexed; the commit of node 2 {k:2} dies at I/O step n; its steps are 9 log
+    fragments, the index leaf, the index catalog page, 3 fragments of CommitTx, the log sync, the
+    node table).  Process death before the leaf write (n = 9): the index has nothing for key 2.
+    Process death right after it (n = 10), or power loss before the log sync (n = 14) with the
+    leaf page persisted: the next open shows only node 1001 (internal id 0), but
+    `lookup_index(L,k,2)` returns internal id 1 — a node that does not exist (the real engine
+    returns `[1]`, `idx 10` line of the stream).  With the leaf page lost the index is clean; after
+    the log sync (n = 15) the node exists. -/
+theorem counterexample_index_before_commit :
+    ixProbe cfgOfSource 9 ⟨.proc, []⟩ = some ([1001], []) ∧
+    ixProbe cfgOfSource 10 ⟨.proc, []⟩ = some ([1001], [1]) ∧
+    ixProbe cfgOfSource 14 ⟨.power [] 0 false, [true]⟩ = some ([1001], [1]) ∧
+    ixProbe cfgOfSource 14 ⟨.power [] 0 false, [false]⟩ = some ([1001], []) ∧
+    ixProbe cfgOfSource 15 ⟨.proc, []⟩ = some ([1001, 2001], [1]) := by decide
 
 /-! ### leaf splits during property sinking
 
